@@ -19,7 +19,7 @@
 (***************************************************************************)
 EXTENDS Naturals, Sequences, FiniteSets, TLC
 
-Mods == {"p", "p.a", "p.b", "p.s", "p.s.c", "q", "r"}    \* q, r: further top-level packages (C06: load order, side-loading)
+Mods == {"p", "p.a", "p.b", "p.s", "p.s.c", "p.s.t", "q", "r"}    \* q, r: further top-level packages (C06: load order, side-loading)
 
 \* dotted string -> parts, for every path string a statement may mention (real modules, missing
 \* modules, and paths that run through a member of a module)
@@ -29,6 +29,7 @@ PP(s) ==
     [] s = "p.b" -> <<"p", "b">>
     [] s = "p.s" -> <<"p", "s">>
     [] s = "p.s.c" -> <<"p", "s", "c">>
+    [] s = "p.s.t" -> <<"p", "s", "t">>     \* a sub-package nested three levels deep (p/s/t/__init__.py)
     [] s = "q" -> <<"q">>
     [] s = "zz" -> <<"zz">>                 \* a package that is nowhere
     [] s = "p.zz" -> <<"p", "zz">>          \* a missing submodule
@@ -51,6 +52,7 @@ StarName(s) ==
     [] s = "p.b" -> "p/b/*"
     [] s = "p.s" -> "p/s/*"
     [] s = "p.s.c" -> "p/s/c/*"
+    [] s = "p.s.t" -> "p/s/t/*"
     [] s = "q" -> "q/*"
     [] s = "r" -> "r/*"
     [] s = "zz" -> "zz/*"
@@ -68,16 +70,16 @@ StarNames == {StarName(s) : s \in PathStrs}
 
 ParentOf(m) ==
   CASE m \in {"p.a", "p.b", "p.s"} -> "p"
-    [] m = "p.s.c" -> "p.s"
+    [] m \in {"p.s.c", "p.s.t"} -> "p.s"
     [] OTHER -> ""
 Leaf(m) == LET pp == PP(m) IN pp[Len(pp)]
-IsPkg(m) == m \in {"p", "p.s", "q", "r"}                   \* has an __init__.py
+IsPkg(m) == m \in {"p", "p.s", "p.s.t", "q", "r"}                   \* has an __init__.py
 TopOf(m) == PP(m)[1]                                  \* name (= module string) of the top-level package
 TopPkgs == {"p", "q", "r"}
 \* sub-modules in the order the loader installs them (finder: sorted by depth, stable)
-SubmodSeq(pkg) == IF pkg = "p" THEN <<"p.a", "p.b", "p.s", "p.s.c">> ELSE <<>>
+SubmodSeq(pkg) == IF pkg = "p" THEN <<"p.a", "p.b", "p.s", "p.s.c", "p.s.t">> ELSE <<>>
 \* order in which the reference imports "everything" (pkgutil.walk_packages / sorted)
-WalkOrder == <<"p", "p.a", "p.b", "p.s", "p.s.c", "q", "r">>
+WalkOrder == <<"p", "p.a", "p.b", "p.s", "p.s.c", "p.s.t", "q", "r">>
 
 \* module string of a parts sequence ("" when it is not a module of the universe)
 ModOfParts(pp) == IF \E m \in Mods : PP(m) = pp THEN CHOOSE m \in Mods : PP(m) = pp ELSE ""
